@@ -4,7 +4,7 @@ import "fmt"
 
 func init() {
 	var specs []LLSpec
-	for _, f := range []string{"f1", "f2", "f3", "f4", "f5"} {
+	for _, f := range []string{"f1", "f2", "f3", "f4", "f5", "f7"} {
 		specs = append(specs, LLSpec{File: "c05.c", Func: "harness_split_" + f, Params: map[string]int{"N": 8, "SPLITS": 1}, ParamsT: map[string]int{"N": 11, "SPLITS": 2}, Reach: []string{"split/done"}})
 	}
 	specs = append(specs,
